@@ -96,7 +96,8 @@ def judge_name(ctx, name, flags=None):
             continue
         if not expat_ok(out):
             astral = [c for c in name if ord(c) > 0xFFFF]
-            if astral and expat_ok("".join(c for c in out if ord(c) <= 0xFFFF) or "a"):
+            # (each astral character replaced by a letter, so that positions - first vs rest - stay what they were)
+            if astral and expat_ok("".join(c if ord(c) <= 0xFFFF else "a" for c in out)):
                 ctx.known_finding("astral-characters-not-coerced", case,
                                   "toXmlName(%r) = %r keeps astral characters, which expat rejects in names" % (name, out))
             else:
